@@ -10,6 +10,8 @@ package main
 
 import (
 	"fmt"
+	"os"
+	"strconv"
 	"strings"
 
 	. "verifharness/hlib"
@@ -26,43 +28,61 @@ type caseT struct {
 }
 
 func run(c *Ctx) {
-	var cases []caseT
+	// C15_SDP_LINE="<kind> <hex> <form seed> <spec>": print the op line of that SDP case (for corpus files) and stop
+	if a := strings.Fields(os.Getenv("C15_SDP_LINE")); len(a) == 4 {
+		seed, _ := strconv.ParseUint(a[2], 10, 64)
+		fmt.Println(sdpLine(a[0], Unhx(a[1]), seed, a[3]))
+		os.Exit(0)
+	}
+	var cases, derived []caseT
 	total := 0
-	// cases are driven and evaluated in batches (the op lines of syntax trees are long)
+	// cases are driven and evaluated in batches (the op lines of syntax trees are long); evaluating a decoder case may
+	// derive an SDP case from it (derive), driven with the next batch
+	derive = func(k caseT) { derived = append(derived, k) }
 	flush := func() {
-		if len(cases) == 0 {
-			return
-		}
-		lines := make([]string, len(cases))
-		for i, k := range cases {
-			lines[i] = k.line
-		}
-		outs := c.Drive(lines)
-		for i, k := range cases {
-			switch k.kind {
-			case "bits":
-				evalBits(c, k, outs[i])
-			case "epb":
-				evalEpb(c, k, outs[i])
-			case "h264dec", "h264enc":
-				evalH264(c, k, outs[i])
-			case "ascdec", "ascenc":
-				evalAsc(c, k, outs[i])
-			case "hevcspsdec", "hevcspsenc":
-				evalHevcSps(c, k, outs[i])
-			case "hevcvpsdec", "hevcvpsenc":
-				evalHevcVps(c, k, outs[i])
-			default:
-				c.Find(Finding{Kind: "corr", Class: "unknown-op", Case: k.line, Impl: "?", Model: outs[i]})
+		for len(cases) > 0 && hung == nil {
+			batch := cases
+			cases = nil
+			lines := make([]string, len(batch))
+			for i, k := range batch {
+				lines[i] = k.line
 			}
-			if (total+i)%4001 == 0 {
-				c.Sample(fmt.Sprintf("%.160s → %.200s", k.line, outs[i]))
+			outs := c.Drive(lines)
+			for i, k := range batch {
+				if hung != nil {
+					break
+				}
+				switch k.kind {
+				case "bits":
+					evalBits(c, k, outs[i])
+				case "epb":
+					evalEpb(c, k, outs[i])
+				case "h264dec", "h264enc":
+					evalH264(c, k, outs[i])
+				case "ascdec", "ascenc":
+					evalAsc(c, k, outs[i])
+				case "hevcspsdec", "hevcspsenc":
+					evalHevcSps(c, k, outs[i])
+				case "hevcvpsdec", "hevcvpsenc":
+					evalHevcVps(c, k, outs[i])
+				case "sdp":
+					evalSdp(c, k, outs[i])
+				default:
+					c.Find(Finding{Kind: "corr", Class: "unknown-op", Case: k.line, Impl: "?", Model: outs[i]})
+				}
+				if (total+i)%4001 == 0 {
+					c.Sample(fmt.Sprintf("%.160s → %.200s", k.line, outs[i]))
+				}
 			}
+			total += len(batch)
+			cases, derived = derived, nil
 		}
-		total += len(cases)
-		cases = cases[:0]
+		cases = nil
 	}
 	add := func(k caseT) {
+		if hung != nil {
+			return
+		}
 		cases = append(cases, k)
 		if len(cases) >= 6000 {
 			flush()
@@ -78,7 +98,7 @@ func run(c *Ctx) {
 	}
 	c.Res.Rule = "case = one driver op line: a reader script over a byte buffer; a byte string for emulation-prevention removal; a byte string fed to a decoder " +
 		"(samples, every truncation, mutations, random); or a generated syntax tree (every optional branch drawn on and off, Exp-Golomb values of every width, signed values) " +
-		"encoded by the specification's encoder and then also put into an SDP for ParseMetadata/NewStream. Distinct by the op line; non-trivial when the decoder got past its header checks or the script has ≥ 2 ops"
+		"encoded by the specification's encoder; or such a parameter set inside a generated SDP (fmtp parameters of the payload format's RFC in any order, start-code prefixes, one or two media sections) for ParseMetadata/NewStream and the depacketizer. Distinct by the op line; non-trivial when the decoder got past its header checks or the script has ≥ 2 ops"
 	genBits(c, add)
 	genEpb(c, add)
 	genH264(c, add)
@@ -87,6 +107,9 @@ func run(c *Ctx) {
 	genHevcTrees(c, add)
 	flush()
 }
+
+// derive queues a case derived from the evaluation of another one (set by run)
+var derive func(caseT)
 
 func trunc(s string, n int) string {
 	if len(s) > n {
